@@ -91,12 +91,11 @@ package conf
 //@ spec tmpl_known(m, e) = m != nil && has(m, e.Dtype) && m[e.Dtype] != nil && has(m[e.Dtype], e.Code)
 //@ spec tmpl_fallback(m, e) = ite(m != nil && has(m, e.Dtype) && m[e.Dtype] != nil && has(m[e.Dtype], "fallback"), m[e.Dtype]["fallback"], "")
 //@ spec placeholder(k) = concat(concat("{{", k), "}}")
-//@ func NewDefaultFormatter(m)
-//@   pure
-//@   ensures[C11] formatter_over_the_given_map: result != nil && isclo(result, "conf.NewDefaultFormatter$1") && *captured(result, "conf.NewDefaultFormatter$1", 0) == m
+//@ spec formatted_with(M, e) = (old(e.Message) != "" ==> e.Message == old(e.Message)) && (old(e.Message) == "" && !tmpl_known(M, e) ==> e.Message == tmpl_fallback(M, e)) && (old(e.Message) == "" && tmpl_known(M, e) && e.Params == nil ==> e.Message == replaceall(M[e.Dtype][e.Code], "{{value}}", sprintv(e.Value)))
 //@ func NewDefaultFormatter$1(e, c)
 //@   implements functype IssueFmtFunc
 //@   modifies e.Message
+//@   ensures[C11] formats_with_its_map: formatted_with(m, e)
 //@   ensures[C11] keeps_a_message_that_is_set: old(e.Message) != "" ==> e.Message == old(e.Message)
 //@   ensures[C11] unknown_code_gets_the_types_fallback: old(e.Message) == "" && !tmpl_known(m, e) ==> e.Message == tmpl_fallback(m, e)
 //@   ensures[C11] template_without_params: old(e.Message) == "" && tmpl_known(m, e) && e.Params == nil ==> e.Message == replaceall(m[e.Dtype][e.Code], "{{value}}", sprintv(e.Value))
